@@ -121,7 +121,10 @@ def check(pid, tier, seed, a):
     # ---------------------------------------------------------------- deductive part
     results = []
     obls = []
-    for key in (P["contracts_fn"]() if "contracts_fn" in P else P.get("contracts", [])):
+    keys = list(P["contracts_fn"]() if "contracts_fn" in P else P.get("contracts", []))
+    if tier == "thorough":
+        keys += list(P.get("contracts_thorough", []))       # contracts whose generation takes too long for the every-change tier
+    for key in keys:
         variant = "default"
         if "@" in key:
             key, variant = key.split("@")
